@@ -20,6 +20,15 @@ CLAIMED = {
         text="Lean theorems for every row count, column and both bit widths: pack/unpack round trip, payload density ceil(R*bits/8), C++ and Python kernels equal on every byte tensor, every route of quanto::unpack equal, "
              "dispatch acts on unpacked values. C++ masks/shifts regenerated from unpack.cpp each run and re-checked by decide. Correspondence against the real code incl. the really compiled C++ kernel.",
         design="6/C04", technique="Lean 4 proof (index-level model, per-byte decide lifted by omega) + regenerated tables + differential correspondence"),
+    "C02": dict(
+        text="Lean theorems per quantization group (all rationals, all three working formats, bits 2/4): scale bound (hi-lo)/(2^bits-1) up to rounding with the range extended to zero, zero-point in [0,2^bits-1] (no int8 wrap), "
+             "half-step error bound with an explicit rounding allowance, all-zero groups dequantize to 0, idempotence for float32/float16; group/ungroup index bijection; counter-example theorems for the repaired defect (range not extended to zero) and the recorded overflow findings. "
+             "Bit-exact correspondence (codes, scales, zero-points, dequantized values, re-quantized codes) on seeded tensors built from 8 degenerate row classes; the same predicate is evaluated on the implementation's outputs.",
+        design="6/C02", technique="Lean 4 proof over an executable float model + bit-exact differential correspondence"),
+    "C03": dict(
+        text="Lean theorems: absmax scale is non-saturating and full-range up to explicit rounding terms, zero slice gives zero scale, scale shape = keepdim shape, locality of every slice reduction (value at a kept index depends only on that slice) for absmax and max optimizers, "
+             "group index maps keep every grouped row/column inside one axis index. Bit-exact correspondence of scales for AbsmaxOptimizer, absmax_scale and MaxOptimizer; metamorphic locality checks (perturb/rescale/permute other slices) on the implementation.",
+        design="6/C03", technique="Lean 4 proof + bit-exact differential correspondence + metamorphic equality on the implementation"),
 }
 
 NOT_YET = "check not yet built in this round (build in progress; see DESIGN.md build order)"
